@@ -165,3 +165,14 @@ func etArrCopy() int {
 func etAnd3(x int) int { return x & 3 }
 
 func etAndVar(x, y uint8) uint8 { return x & y }
+
+func etCopy(src []byte) int {
+	var a [4]byte
+	return copy(a[:], src)
+}
+
+func etCopyStr() int {
+	var a [4]byte
+	n := copy(a[1:], "hi")
+	return n*100 + int(a[0])
+}
